@@ -2677,6 +2677,7 @@ class ACPCProtocolParser(Parser):
             error_status: bool = False,
     ) -> Generator[HandHistory, None, int]:
         count = 0
+        s = s.replace('\r\n', '\n')
 
         for pattern in self.HAND:
             for m in finditer(pattern, s):
